@@ -1,2 +1,23 @@
 """Predicates recognising the known findings listed in /verif/known_findings.txt by their concrete input.
 Each takes (case, detail) and returns True when that failing case IS the listed finding."""
+
+
+# ---- C16 -------------------------------------------------------------------------------------------------
+def posonly_kw_collision(case, detail):
+    """C16 / F15: the generated wrapper declares positional-only parameters as ordinary ones (getfullargspec folds
+    them into args), so a call that passes a KEYWORD spelled like a positional-only parameter binds differently
+    (def f(a, /, **kw): f(1, a=2)  ->  TypeError in the wrapper;  def f(a, b=5, /): f(1, b=3)  ->  accepted)."""
+    if not isinstance(case, dict) or case.get('kind') != 'bind' or not isinstance(detail, str):
+        return False
+    po = set(case['shape']['posonly'])
+    return bool(po) and any(k in po for k, _v in case['kw']) and detail.startswith('posonly-keyword: binding differs')
+
+
+def reserved_param_name(case, detail):
+    """C16: decorator.py compiles `return _call_(_func_, ...)`; a function or parameter called _call_ / _func_ is
+    refused with NameError at decoration time, and a keyword-only parameter of that name silently shadows the helper."""
+    if not isinstance(case, dict) or case.get('kind') != 'bind' or not isinstance(detail, str):
+        return False
+    sh = case['shape']
+    names = [sh['name']] + sh['posonly'] + sh['args'] + sh['kwonly'] + [x for x in (sh['varargs'], sh['varkw']) if x]
+    return any(n in ('_call_', '_func_') for n in names) and detail.startswith('reserved-name:')
